@@ -112,7 +112,25 @@ def run (j : Json) : Except String Json := do
   -- "as_segments": the path was handed to find() as a tuple/list of segments; pathexpr joins
   -- it with "/", and the error message is formatted with `% (path,)`, so nothing else changes
   let res := find root start path single strict
-  let mut out := [("ops", ops), ("result", resJson tbl res)]
+  -- the depth-first reading with explicit error precedence (spec `denOrd`), list form; the error
+  -- carries the slice depth at which it arises.  `find_denotes_gen` is re-checked on every case.
+  let ordR : Option Ranked := match tokenize path with
+    | .ok o => some (denOrd root strict o 0 start)
+    | .error _ => none
+  let ordered := match ordR, tokenize path with
+    | some (.ok l), _ => obj [("list", ofList (idOf tbl) l)]
+    | some (.err d e), _ => obj [("error", Json.str (errStr e)), ("depth", ofNat d)]
+    | none, .error e => obj [("error", Json.str (errStr e))]
+    | none, .ok _ => Json.null
+  let genOk : Bool := match ordR with
+    | none => true
+    | some r =>
+      let viaOrd : FindRes := match r.forget with
+        | .error e => .err e
+        | .ok l => if single then singleOf strict (.ok l) else .many l
+      findResEq viaOrd res
+  let mut out := [("ops", ops), ("result", resJson tbl res), ("ordered", ordered)]
+  let mut agreesAll := genOk
   -- spec B on the AST the path was printed from (when the case carries one)
   match j.getObjVal? "ast" with
   | .error _ => pure ()
@@ -137,7 +155,8 @@ def run (j : Json) : Except String Json := do
           (match tokenize path with
            | .ok ops => ops == (if hasDots then canonicalize (compile p) else compile p)
            | .error _ => false)
-        out := out ++ [("spec_agrees", Json.bool agrees)]
+        agreesAll := agreesAll && agrees
+  out := out ++ [("spec_agrees", Json.bool agreesAll)]
   return obj out
 
 end Flatland.Run.C14
